@@ -187,9 +187,57 @@ def classify(r):
     return None
 
 
-def judge_script(run, item, binary=None):
+FUNC_HEADER = re.compile(r"(?:^|[\n;&|({]|\bfunction)\s*([A-Za-z_][A-Za-z0-9_]*)\s*\(\s*\)")
+
+
+def static_call_cycle(script):
+    """Over-approximate call graph of the functions a script defines (body = text from the header to the first line that is a
+    bare `}`, or to the end): True if some function can reach itself. Used only to attribute a stack overflow to recursion written
+    in the input when bash never got as far as running it (e.g. it stopped at a syntax error brush does not see)."""
+    heads = [(m.group(1), m.end()) for m in FUNC_HEADER.finditer(script)]
+    bodies = {}
+    for name, start in heads:
+        eol = script.find("\n", start)
+        line = script[start:] if eol < 0 else script[start:eol]
+        if line.rstrip().endswith("}") and line.count("{") == line.count("}"):
+            body = line                                   # one-line definition
+        else:
+            m = re.search(r"\n\}[ \t]*(?:\n|$)", script[start:])
+            body = script[start:start + m.start()] if m else script[start:]
+        bodies[name] = bodies.get(name, "") + "\n" + body
+    cmdpos = r"(?:^|[\n;&|({!]|\b(?:then|do|else|elif|if|while|until|time))[ \t]*"
+    edges = {n: {k for k in bodies if re.search(cmdpos + re.escape(k) + r"(?=[\s;&|)]|$)", b)} for n, b in bodies.items()}
+    for n in bodies:
+        seen, todo = set(), list(edges[n])
+        while todo:
+            k = todo.pop()
+            if k == n:
+                return True
+            if k not in seen:
+                seen.add(k)
+                todo.extend(edges[k])
+    return False
+
+
+ASAN_ENV = {"ASAN_OPTIONS": "detect_leaks=1:halt_on_error=1:abort_on_error=0:allocator_may_return_null=1:max_allocation_size_mb=3072:hard_rss_limit_mb=4096"}
+
+
+def _pool_eval(args):
+    """Runs in a forked pool worker (forking a small process is cheap; the driver with the whole corpus in memory is not)."""
+    script, binary, asan = args
+    r = run_hostile("brush", script, binary, extra_env=ASAN_ENV if asan else None, asan=asan)
+    err = r.err if len(r.err) <= 8000 else r.err[:3000] + b"\n...\n" + r.err[-5000:]
+    return core.Res(r.rc, r.out[-2000:], err, r.timed_out, r.wall)
+
+
+def pool_map(pool, scripts, binary=None, asan=False):
+    return pool.imap(_pool_eval, [(s, binary, asan) for s in scripts], chunksize=16)
+
+
+def judge_script(run, item, binary=None, r=None):
     origin, script = item
-    r = run_hostile("brush", script, binary)
+    if r is None:
+        r = run_hostile("brush", script, binary)
     run.evaluations += 1
     kind = classify(r)
     if kind is None and not r.timed_out and r.sig != 24:
@@ -218,6 +266,9 @@ def judge_script(run, item, binary=None):
         rh = run_hostile("bash", script, extra_env={"FUNCNEST": "300"})
         if b"maximum function nesting level exceeded" in rh.err:
             run.count("unbounded_recursion_in_input_beyond_300_levels")
+            return
+        if b"syntax error" in rh.err and static_call_cycle(script):
+            run.count("recursive_function_in_input_that_bash_rejects_earlier")
             return
     kf = run.findings.match_signature(site)
     if kf:
@@ -284,6 +335,11 @@ def corpus(run, quick, scale):
         items.append(("string", s))
     for s in cycle_scripts(rng, int((500 if quick else 30000) * scale)):
         items.append(("cycle", s))
+    from . import c19
+    tl = list(c19.template_lines(1))          # two-slot construct templates (here-documents with odd tags, escapes in backquotes, ...)
+    rng.shuffle(tl)
+    for s in tl[: int((4000 if quick else 10**9) * scale)]:
+        items.append(("template", s))
     for p in progs[: int((12 if quick else 200) * scale)]:
         ls = p.split("\n")
         for k in range(1, len(ls)):
@@ -310,19 +366,24 @@ def run(run):
                 % (len(BOUNDARY_TEMPLATES), len(BOUNDARY_VALUES), len(STRING_TEMPLATES), len(STRING_VALUES)))
     run.assumptions = ["scripts run as uid 65534 with CPU/AS/FSIZE rlimits in a private directory", "a script neither shell finishes is not a hang",
                        "unbounded recursion written in the script itself (f() { f; }) crashes bash too and is not generated"]
-    from . import diffrun
+    import multiprocessing
+    pool = multiprocessing.get_context("fork").Pool(core.NCPU)       # forked before the corpus exists: workers stay small
     canaries(run)
     items = corpus(run, quick, scale)
     run.count("scripts", len(items))
     run.max_violations = 25
-    core.pmap(lambda it: judge_script(run, it), items)
+    for it, r in zip(items, pool_map(pool, [s for _, s in items])):
+        judge_script(run, it, r=r)
     rng = run.rng("lines")
     lines = mutate.corpus_lines(rng, int((1200 if quick else 40000) * scale))
     lines += [s for o, s in items if o in ("boundary", "ladder") and "\n" not in s][: int((800 if quick else 20000) * scale)]
+    lines += [s for o, s in items if o == "template"][: int((1500 if quick else 40000) * scale)]
     inproc_layer(run, lines)
     if not quick:
-        asan_layer(run, items)
+        asan_layer(run, items, pool)
         miri_layer(run, lines)
+    pool.close()
+    pool.join()
     run.extra["exit_status_histogram"] = {str(k): v for k, v in sorted(run.status_hist.items(), key=lambda kv: -kv[1])[:12]}
     run.extra["slow_or_looping_samples"] = run.slow[:3]
     run.sample({"origin": items[len(mutate.SEED_SNIPPETS) + 100][0], "script": items[len(mutate.SEED_SNIPPETS) + 100][1][:400]})
@@ -358,7 +419,7 @@ def canaries(run):
 
 # ---- thorough-only layers -----------------------------------------------------------------------------------------
 
-def asan_layer(run, items):
+def asan_layer(run, items, pool):
     tdir = os.path.join(core.TARGET, "asan")
     p = subprocess.run(["cargo", "+nightly", "build", "--offline", "-q", "--manifest-path", os.path.join(core.REPO, "Cargo.toml"), "-p", "brush-shell",
                         "--target", "x86_64-unknown-linux-gnu", "--target-dir", tdir],
@@ -373,9 +434,7 @@ def asan_layer(run, items):
     rng.shuffle(sub)
     sub = sub[:20000]
 
-    def one(it):
-        r = run_hostile("brush", it[1], binary, extra_env={"ASAN_OPTIONS": "detect_leaks=1:halt_on_error=1:abort_on_error=0:allocator_may_return_null=1:max_allocation_size_mb=3072:hard_rss_limit_mb=4096"},
-                        asan=True)
+    def one(it, r):
         run.evaluations += 1
         run.count("asan_runs")
         m = re.search(rb"ERROR: (AddressSanitizer|LeakSanitizer): ([a-zA-Z-]+)", r.err)
@@ -396,7 +455,8 @@ def asan_layer(run, items):
                 return
             run.violation(sig[:110], {"kind": "asan", "script": it[1][:2000], "report": core.txt(r.err[-4000:])})
 
-    core.pmap(one, sub)
+    for it, r in zip(sub, pool_map(pool, [x[1] for x in sub], binary, True)):
+        one(it, r)
 
 
 def miri_layer(run, lines):
